@@ -281,6 +281,7 @@ package stree
 //@   ghostret ni imap[int], ki imap[int]
 //@   requires [C01] live: forall k int :: {nodes[k]} 0 <= k && k < len(nodes) ==> nodes[k] != nil && allocated(nodes[k])
 //@   requires [C01] apart: forall a int, b int :: {nodes[a], nodes[b]} 0 <= a && a < b && b < len(nodes) ==> nodes[a] != nodes[b]
+//@   requires [C01] sorted: forall a int, b int :: {nodes[a], nodes[b]} 0 <= a && a < b && b < len(nodes) ==> rank(cmp, nodes[a].X) < rank(cmp, nodes[b].X)
 //@   ensures  [C01] nil: (len(nodes) == 0) == (result == nil)
 //@   ensures  [C01] shape: treeOK(result, cmp) && cntOf(result) == len(nodes)
 //@   ensures  [C01] members: forall k int :: {nodes[k]} 0 <= k && k < len(nodes) ==> inD(result, nodes[k]) && inK(result, rank(cmp, nodes[k].X)) && result.rep[rank(cmp, nodes[k].X)] == nodes[k].X
